@@ -139,11 +139,16 @@ Definition ext_content (c : ext_content_id) (ext_len : N) : P TlsExtension :=
   | XC_encrypted_server_name => parse_tls_extension_encrypted_server_name
   end.
 
+(* ext_type & MASK == VAL [&& ext_type >> 8 == ext_type & 0xff] *)
+Definition grease_test (t : N) : bool :=
+  (N.land t grease_mask =? grease_val) &&
+  (if grease_same_bytes then N.shiftr t 8 =? N.land t 255 else true).
+
 (* the common shape of the three dispatchers; `ext_data.len() as u16` *)
 Definition dispatch_ext (tbl : list (N * ext_content_id)) : P TlsExtension :=
   let* ext_type := be_u16 in
   let* ext_data := length_data be_u16 in
-  if N.land ext_type grease_mask =? grease_val then Ret (EGrease ext_type ext_data) else
+  if grease_test ext_type then Ret (EGrease ext_type ext_data) else
   let ext_len := slen ext_data mod 65536 in
   match assoc_N ext_type tbl with
   | Some c => On ext_data (ext_content c ext_len)
